@@ -108,6 +108,12 @@ CHECKS = {
         technique="model-based property testing: plain application as reference; exhaustive arity x completion-order enumeration with a non-commutative echo function + Hypothesis-drawn concurrent completions under the deterministic scheduler",
         text="For every split of up to 4 (random: 9) argument futures into positional and keyword, and every completion order of function future and arguments (plus failures/cancels/never at every position), the output must equal fn(*args, **kwargs) on the plain values, fn must be called exactly once and only after the last input was completed, and a failing input or fn must surface its exception.",
         design_ref="DESIGN.md section 4 (C16)", note=ENGINE_NOTE),
+
+    "C20": dict(
+        category="exploration",
+        technique="model-based property testing: Hypothesis-drawn histories (submit / run / fail / cancel queued, between retries, in flight / timeout firing / shutdown) with metric samples at quiescent points, plus exhaustive single-pre-emption sweeps of gauge-update races, against a stand-in prometheus_client; oracle = gauge/counter values recomputed from the recorded history",
+        text="With a stand-in prometheus_client on the import path (PrometheusMetrics live), metrics are sampled together with the state of every future at quiescent points: per-layer exec gauges/counters, future_inprogress/total/cancel/error, retry_queue, throttle_queue, retry_total, poll_total/poll_error, timeout and shutdown_cancel must equal the counts recomputed from the event history, and no gauge child may ever have gone below zero.",
+        design_ref="DESIGN.md section 4 (C20)", note=ENGINE_NOTE + " prometheus_client itself is replaced by lib/standin/prometheus_client (the real package is not installable offline)."),
 }
 
 NOT_YET = {}
